@@ -165,3 +165,72 @@ def ckey(key):
 
 def nat_lists(frames, col='v'):
     return [[C.Nat(int(x)) for x in f[col].tolist()] for f in frames]
+
+
+# --------------------------------------------------------------------------
+# arbitrary float64 coordinates: every finite double is a dyadic rational, so a frame's
+# numbers become exact integers under a per-case power-of-two scale (no rounding anywhere)
+# --------------------------------------------------------------------------
+def _flat(vs):
+    for v in vs:
+        if isinstance(v, (list, tuple, np.ndarray)):
+            yield from _flat(v)
+        else:
+            yield v
+
+
+def log2scale(values, lo=1):
+    """smallest k >= lo such that v * 2**k is an integer for every finite v (nested lists
+    allowed, None / NaN / inf ignored)"""
+    k = lo
+    for v in _flat(values):
+        if v is None:
+            continue
+        v = float(v)
+        if not math.isfinite(v) or v == 0:
+            continue
+        k = max(k, v.as_integer_ratio()[1].bit_length() - 1)
+    return k
+
+
+def znum(x, k):
+    """float -> model num under the scale 2**k, exactly"""
+    if x is None:
+        return None
+    x = float(x)
+    if not math.isfinite(x):
+        return None
+    n, d = x.as_integer_ratio()
+    q, r = divmod(n << k, d)
+    if r:
+        raise ValueError(f'{x!r} is not a multiple of 2**-{k}')
+    return C.Some(q)
+
+
+def cbox_k(row, k):
+    return tuple(znum(v, k) for v in row)
+
+
+def ckey_k(key, k):
+    return tuple(None if v is None else znum(v, k) for v in key)
+
+
+def el_box(el):
+    """(x0, y0, x1, y1) of an element given as (nested) coordinate lists; None if it has none"""
+    if el is None:
+        return None
+    flat = [float(v) for v in _flat(el)]
+    if not flat:
+        return None
+    xs, ys = flat[0::2], flat[1::2]
+    return (min(xs), min(ys), max(xs), max(ys))
+
+
+def make_frame_arrays(ga, ha, active='g', index0=10):
+    """make_frame from ready geometry arrays (which may be positional slices of longer ones)"""
+    from spatialpandas import GeoDataFrame
+    n = len(ga)
+    assert len(ha) == n
+    return GeoDataFrame({'g': ga, 'h': ha, 'v': np.arange(n, dtype='int64'),
+                         'w': np.array([1.5 * i - 2 for i in range(n)])},
+                        index=list(range(index0, index0 + n)), geometry=active)
